@@ -14,7 +14,7 @@ RULES = {
     "V6": "the JSON routes are symmetric: no asymmetric serde attribute (skip*/default/with/flatten/..) on any type the snapshot, package or level data is made of; OrderId's JSON form is its text form, written with to_string(), read as an owned string through from_str, and that pair round-trips",
     "V5": "snapshot() reads price/aggregates/orders of self through the public accessors and the listing, nothing else",
     "V7": "the exported forms are taken from the level as it is now: every Ok result of snapshot_package() is PriceLevelSnapshotPackage::new(self.snapshot()) and every Ok result of snapshot_to_json() is to_json() of such a package, built in the same call (no cached / stored text)",
-    "V8": "text form: the Display / FromStr pair of PriceLevel agrees on tag, keys, bindings and the order-list structure, including the empty list (C16's rules for PriceLevel on the same tables) - rebuilding a level from its own text succeeds",
+    "V8": "text form: the Display / FromStr pairs of PriceLevel and of the orders it lists (OrderType, OrderId, Side, TimeInForce, PegReferenceType) agree on tag, keys, bindings and the order-list structure, including the empty list (C16's rules for PriceLevel on the same tables) - rebuilding a level from its own text succeeds",
 }
 
 
